@@ -90,6 +90,17 @@ func checkC20(c *core.Ctx, l *core.Ledger) {
 		s = strings.ReplaceAll(s, "*ssa.MakeMap["+toFld+".ID]#0", "FROM")
 		s = strings.ReplaceAll(s, "*ssa.MakeMap["+toFld+".ID]#1", "HIT")
 		s = strings.ReplaceAll(s, toFld, "TO")
+		// one spelling for nil tests: !(x != nil) is (x == nil), (x != nil) is !(x == nil)
+		if strings.HasSuffix(s, "!=c:nil)") {
+			neg := strings.HasPrefix(s, "!")
+			body := strings.TrimPrefix(s, "!")
+			body = strings.TrimSuffix(body, "!=c:nil)") + "==c:nil)"
+			if neg {
+				s = body
+			} else {
+				s = "!" + body
+			}
+		}
 		return s
 	}
 	want := map[string][]string{
